@@ -4,6 +4,7 @@
    call and, through the API listing, the path on which the author of an admitted request actually sits. *)
 From Coq Require Import List ZArith Bool.
 Require Import MTX.Model.C14_PathConf MTX.Model.C03_Auth.
+Require Export MTX.Model.C03_Origin.
 Import ListNotations.
 Local Open Scope Z_scope.
 
@@ -39,7 +40,23 @@ Inductive case :=
    which; oracle_req / oracle_att: auth.Manager.Authenticate asked directly for (action, name / attached, cred, ip). *)
 | E2E (proto : Z) (publish : bool) (name : str) (cred ip : Z)
       (conf0 : option Z) (reload : option (option Z)) (has_stream : bool)
-      (admitted : bool) (attached : str) (oracle_req oracle_att : bool).
+      (admitted : bool) (attached : str) (oracle_req oracle_att : bool)
+(* End to end with a network between client and server (second Core of the driver runs with <proto>TrustedProxies set):
+   trusted: the <proto>TrustedProxies of the Core the attempt ran against (v4?, base address, prefix length);
+   peer: source address of the connection the driver opened (text); hdrs: forwarding headers put on a HTTP request
+   (0 X-Forwarded-For, 1 X-Real-Ip; joined values); pp: source address of a PROXY protocol v1 header written first on
+   a RTSP / RTMP connection; ptbl: ORACLE net.ParseIP of the peer, of every header item and of pp (v4?, number);
+   who: GROUND TRUTH - the address of the host the driver played as the originator of the request (the driver plays
+   honest proxies itself: it connects from the proxy's address and writes what an honest proxy would write);
+   otbl: for every address text involved (peer, header items, pp, who): auth.Manager.Authenticate asked directly for
+   (action, name, cred, that address) and - when admitted - for (action, attached, cred, that address). *)
+| E2EN (proto : Z) (publish : bool) (name : str) (cred : Z)
+       (trusted : list (bool * Z * Z))
+       (peer : str) (hdrs : list (Z * str)) (pp : option str)
+       (ptbl : list (str * option (bool * Z)))
+       (who : str)
+       (conf0 : option Z) (has_stream : bool) (admitted : bool) (attached : str)
+       (otbl : list (str * (bool * bool))).
 
 Fixpoint oracle_get (o : list (str * str * option (list str))) (k n : str) : option (list str) :=
   match o with
@@ -103,6 +120,13 @@ Definition mismatch (c : case) : bool :=
   | E2E _ publish n cr ip conf0 reload has_stream admitted _ oreq _ =>
       let m := e2e_model publish n cr ip conf0 reload oreq in
       if admitted then negb m else m && (publish || has_stream)
+  | E2EN proto publish n cr tr peer hdrs pp ptbl who conf0 has_stream admitted _ otbl =>
+      (* the address the server of that protocol evaluates, by the sources its call sites use (Model/C03_Origin.v), must
+         be the ground truth; the admission is the flow's with the manager's verdict for THAT address *)
+      let ip := e2en_ip proto tr ptbl peer hdrs pp in
+      let oreq := match tbl_get otbl ip with Some (r, _) => r | None => false end in
+      let m := e2e_model publish n cr 0 conf0 None oreq in
+      negb (txt_eqb ip who) || (if admitted then negb m else m && (publish || has_stream))
   end.
 
 (* ---- the property on the observed outcomes alone (no model function) ---- *)
@@ -142,6 +166,10 @@ Definition spec_fail (c : case) : bool :=
       admitted
       && negb (oatt && str_eqb attached n
                && match reload with Some c1 => opt_eqb conf0 c1 | None => true end)
+  | E2EN _ _ n _ _ _ _ _ _ who _ _ admitted attached otbl =>
+      (* the same, with the manager asked about the ORIGINATOR's address (ground truth, not the headers, not the model) *)
+      admitted
+      && negb (match tbl_get otbl who with Some (_, a) => a | None => false end && str_eqb attached n)
   end.
 
 (* the end-to-end judgement is not vacuous: an admission the oracle does not back, an attachment to another path and an
@@ -166,4 +194,25 @@ Example e2e_model_examples :
    mismatch (E2E 2 false n 2 0 (Some 1) None false false [] true false),
    mismatch (E2E 2 false n 2 0 None None true true n true true))
   = (false, true, false, true, false, true).
+Proof. vm_compute. reflexivity. Qed.
+
+(* network cases: R = 203.0.113.7 reads through the trusted proxy P = 127.0.0.3 with credentials the manager admits from
+   P only. Refused: fine. Admitted: a violation (the manager was asked about the proxy). The same client with
+   credentials admitted from R: admitted is fine, refused is a (model) mismatch; a forged header from an untrusted peer. *)
+Example e2en_examples :
+  let n := [99; 97; 109] in
+  let P := [49; 50; 55; 46; 48; 46; 48; 46; 51] in let R := [50; 48; 51; 46; 48; 46; 49; 49; 51; 46; 55] in
+  let tr := [(true, 2130706435, 32)] in
+  let pt := [(P, Some (true, 2130706435)); (R, Some (true, 3405803783))] in
+  let onlyP := [(P, (true, true)); (R, (false, false))] in let onlyR := [(P, (false, false)); (R, (true, true))] in
+  let c adm o := E2EN 3 false n 11 tr P [(0, R)] None pt R (Some 1) true adm (if adm then n else []) o in
+  let f adm o := E2EN 2 false n 11 tr R [(0, P)] None pt R (Some 1) true adm (if adm then n else []) o in
+  (spec_fail (c false onlyP), mismatch (c false onlyP), spec_fail (c true onlyP), mismatch (c true onlyP),
+   spec_fail (c true onlyR), mismatch (c true onlyR), mismatch (c false onlyR),
+   spec_fail (f true onlyP), mismatch (f false onlyP),
+   (* a PROXY header on RTSP: believed from P, ignored from R *)
+   mismatch (E2EN 0 true n 11 tr P [] (Some R) pt R (Some 1) false true n onlyR),
+   mismatch (E2EN 0 true n 11 tr R [] (Some P) pt R (Some 1) false false [] onlyP),
+   spec_fail (E2EN 0 true n 11 tr R [] (Some P) pt R (Some 1) false true n onlyP))
+  = (false, false, true, true, false, false, true, true, false, false, false, true).
 Proof. vm_compute. reflexivity. Qed.
